@@ -782,10 +782,17 @@ def adapt_typehints(
 
     # Literal
     elif typehint_origin in literal_types:
-        if val not in subtypehints and isinstance(val, str):
-            subtypes = Union[tuple({type(v) for v in subtypehints if type(v) is not str})]
-            val = adapt_typehints(val, subtypes, **adapt_kwargs)
-        if val not in subtypehints:
+        def is_member(value):  # equal to a member and of its type: True is not the member 1, 1.0 is not the member 1
+            return any(value == v and type(value) is type(v) for v in subtypehints)
+
+        if not is_member(val) and isinstance(val, str):
+            for subtype in dict.fromkeys(type(v) for v in subtypehints if type(v) is not str):
+                with suppress(ValueError):
+                    candidate = adapt_typehints(val, subtype, **adapt_kwargs)
+                    if is_member(candidate):
+                        val = candidate
+                        break
+        if not is_member(val):
             raise_unexpected_value(f"Expected a {typehint}", val)
 
     # Basic types
